@@ -72,6 +72,32 @@ $OMEGA 0.031128  ; IVV
 $SIGMA 0.013241
 $ESTIMATION METHOD=1 INTERACTION
 """
+# a two-compartment oral model whose dataset has an ACTIVE CMT column: doses into compartment 1 (depot), observations
+# taken from compartment 2 (central); transformations that renumber the compartments must rewrite the column consistently
+ORAL2_CMT = """$PROBLEM two-compartment oral, CMT column in use
+$INPUT ID TIME AMT CMT DV
+$DATA file.csv IGNORE=@
+$SUBROUTINES ADVAN4 TRANS4
+$PK
+CL = THETA(1) * EXP(ETA(1))
+V2 = THETA(2) * EXP(ETA(2))
+Q = THETA(3)
+V3 = THETA(4)
+KA = THETA(5)
+S2 = V2
+$ERROR
+IPRED = F
+Y = F + F * EPS(1)
+$ESTIMATION METHOD=1 INTER
+$THETA (0, 10.0) ; POP_CL
+$THETA (0, 100) ; POP_VC
+$THETA (0, 3.0) ; POP_Q
+$THETA (0, 50) ; POP_VP
+$THETA (0, 1.0) ; POP_KA
+$OMEGA 0.1; IIV_CL
+$OMEGA 0.1; IIV_VC
+$SIGMA 0.1; RUV_PROP
+"""
 # start models that are only checked as they are (read -> code -> TLC), not walked: a $DES model, general linear ones
 EXTRA_MODELS = {
     "pheno_des": "tests/testdata/nonmem/models/pheno_des_assignments.mod",
@@ -82,11 +108,11 @@ EXTRA_MODELS = {
     "pheno_2transits": "tests/testdata/nonmem/modeling/pheno_2transits.mod",
 }
 # per start model: covariate, parameter for the covariate effect, parameter for the extra IIV
-EDIT_TARGETS = {"pheno_real": ("WGT", "V", "S1"), "pheno_block": ("APGR", "CL", "S1"), "mox2": ("WT", "VC", "KA"),
+EDIT_TARGETS = {"pheno_real": ("FA2", "V", "S1"), "pheno_block": ("FA2", "V", "S1"), "oral2_cmt": ("TIME", "V3", "KA"), "mox2": ("WT", "VC", "KA"),
                 "pheno_advan3": ("WGT", "V", "S1"), "pheno_advan4": ("WGT", "V", "S1")}
 
 TIERS = {
-    "quick": dict(edges=160, walks=32, walk_len=5, rw_every=6, roundtrip=150, row_depth=1),
+    "quick": dict(edges=160, walks=30, walk_len=5, rw_every=6, roundtrip=120, row_depth=1, cap=95),
     "thorough": dict(edges=3000, walks=800, walk_len=6, rw_every=4, roundtrip=1500, row_depth=4),
 }
 _MODELS: dict = {}
@@ -112,6 +138,13 @@ def _load():
                     pass
     if "pheno_block" not in _MODELS:
         _MODELS["pheno_block"] = pm.read_model_from_string(PHENO_BLOCK.format(data=core.REPO / "tests/testdata/nonmem/pheno.dta"))
+    if "oral2_cmt" not in _MODELS:
+        import pandas as pd
+        from pharmpy.model.external.nonmem import parse_model
+
+        df = pd.DataFrame({"ID": [1, 1, 1, 2, 2, 2], "TIME": [0, 1, 2, 0, 1, 2], "AMT": [100, 0, 0, 100, 0, 0],
+                           "CMT": [1, 2, 2, 1, 2, 2], "DV": [0, 1.0, 2.0, 0, 1.5, 2.5]})
+        _MODELS["oral2_cmt"] = parse_model(ORAL2_CMT, dataset=df)
     missing = [n for n in START_MODELS if n not in _MODELS]
     if missing:
         raise core.MachineryError(f"start models not loadable: {missing}")
@@ -139,6 +172,10 @@ def _setter(tok, start):
         "ZI": partial(pm.set_zero_order_input, compartment="CENTRAL", expression=10),
         "COV": partial(pm.add_covariate_effect, parameter=par, covariate=cov, effect="exp"),
         "IIV": partial(pm.add_iiv, list_of_parameters=[iivpar], expression="exp"),
+        "CAT": partial(pm.add_covariate_effect, parameter="CL", covariate="FA1", effect="cat2"),
+        "RCOV": partial(pm.remove_covariate_effect, parameter=par, covariate=cov),
+        "IOV": partial(pm.add_iov, occ="FA1", list_of_parameters=["CL"]),
+        "RIOV": pm.remove_iov,
         "RCL": partial(pm.remove_covariate_effect, parameter="CL", covariate="WGT"),
         "RV": partial(pm.remove_covariate_effect, parameter="V", covariate="WGT"),
         "FIX": lambda m: pm.fix_parameters(m, [next(p.name for p in m.parameters if p.name not in m.random_variables.parameter_names)]),
@@ -213,7 +250,7 @@ def probe_envs(cs, seed, k=2):
     unknown = [n for n in names if "(" not in n and n not in cols and n not in ("T", "TIME", "DVID", "NEWIND", "ICALL")]
     rng = random.Random(seed)
     # both sides of the conditions: an input compared with a literal is probed below the literal first, above it second
-    splits = {}
+    splits, equals = {}, {}
 
     def conds(x):
         if isinstance(x, list):
@@ -222,10 +259,15 @@ def probe_envs(cs, seed, k=2):
         elif isinstance(x, dict):
             if x.get("k") == "rel":
                 a, b = x["a"], x["b"]
+                if b.get("k") == "var" and a.get("k") == "num":
+                    a, b = b, a
                 if a.get("k") == "var" and b.get("k") == "num" and a["v"] in names and "(" not in a["v"]:
-                    splits.setdefault(a["v"], Fraction(b["n"], b["d"]))
-                elif b.get("k") == "var" and a.get("k") == "num" and b["v"] in names and "(" not in b["v"]:
-                    splits.setdefault(b["v"], Fraction(a["n"], a["d"]))
+                    lit = Fraction(b["n"], b["d"])
+                    if x["op"] in ("EQ", "NE"):
+                        if lit not in equals.setdefault(a["v"], []):
+                            equals[a["v"]].append(lit)      # X.EQ.0, X.EQ.1: the literals themselves are the probes
+                    else:
+                        splits.setdefault(a["v"], lit)
             for y in x.values():
                 conds(y)
 
@@ -253,6 +295,10 @@ def probe_envs(cs, seed, k=2):
                 raise FE.Unsupported(f"reads {n}")
             else:
                 env[n] = list(rng.choice(DATA_POOL))
+        for name, lits in equals.items():
+            if name in env and name not in ("AMT", "DVID"):
+                val = lits[len(envs) % len(lits)] if len(lits) > 1 or len(envs) % 2 == 0 else lits[0] + 1
+                env[name] = [val.numerator, val.denominator]
         for name, c in splits.items():
             if name in env and name not in ("AMT", "DVID"):
                 val = (c - Fraction(3, 2)) if len(envs) % 2 == 0 else (c + Fraction(3, 2))
@@ -268,13 +314,13 @@ def dataset_modes(model):
     df, di = model.dataset, model.datainfo
     notes = []
     if df is None:
-        return "none", 0, ["no dataset"]
+        return "none", 0, 0, ["no dataset"]
     try:
         amt = di.typeix["dose"][0].name
     except Exception:  # noqa: BLE001
         amt = "AMT"
     if amt not in df.columns:
-        return "none", 0, ["no dose column"]
+        return "none", 0, 0, ["no dose column"]
     doses = df[df[amt] != 0]
     ratemode = "none"
     if "RATE" in df.columns and "RATE" in di.names and not di["RATE"].drop:
@@ -298,14 +344,27 @@ def dataset_modes(model):
         elif len(c) > 1:
             dcmt = -1
             notes.append(f"doses into compartments {c}")
-    return ratemode, dcmt, notes
+    ocmt = 0
+    if dcmt != 0:
+        obs = df[df[amt] == 0]
+        c = sorted(set(int(float(x)) for x in obs["CMT"].unique()))
+        if len(c) == 1:
+            ocmt = c[0]
+        elif len(c) > 1:
+            ocmt = -1
+            notes.append(f"observations from compartments {c}")
+    return ratemode, dcmt, ocmt, notes
+
+
+class UndefinedVariable(Exception):
+    """the generated code reads a name that is neither assigned in it, nor a data item of $INPUT, nor reserved"""
 
 
 def build_case(cid, cs, model, seed):
     """front-end result -> NMTran.tla case (raises Unsupported when outside the interpreted subset)"""
     envs, unknown = probe_envs(cs, seed)
     if unknown:
-        raise FE.Unsupported(f"reads undeclared names {unknown[:4]}")
+        raise UndefinedVariable(", ".join(unknown[:4]))
     if cs["pred"] is not None and cs["pk"] is None:
         return {"id": cid, "kind": "pred", "prog": cs["pred"], "envs": envs}
     if cs["pk"] is None or cs["advan"] is None:
@@ -319,8 +378,8 @@ def build_case(cid, cs, model, seed):
         raise FE.ParseError("general ADVAN without $MODEL compartments")
     if advan in (6, 8, 9, 13) and cs["des"] is None:
         raise FE.ParseError("differential-equation ADVAN without $DES")
-    ratemode, dcmt, notes = dataset_modes(model)
-    if ratemode == "mixed" or dcmt == -1:
+    ratemode, dcmt, ocmt, notes = dataset_modes(model)
+    if ratemode == "mixed" or dcmt == -1 or ocmt == -1:
         raise FE.Unsupported("dose records of several kinds / compartments")
     rng = random.Random(seed + 17)
     amt = [list(a) for a in rng.sample(AMOUNT_POOL, ncomp)]
@@ -329,7 +388,7 @@ def build_case(cid, cs, model, seed):
         env.setdefault("RATE", [5, 1])
     case = {"id": cid, "kind": "advan", "advan": advan, "trans": cs["trans"] or 1, "prog": cs["pk"],
             "err": cs["error"] or [], "des": cs["des"] or [], "comps": cs["model"], "amt": amt,
-            "obscmt": 0, "dosecmt": dcmt, "ratemode": ratemode, "envs": envs}
+            "obscmt": ocmt, "dosecmt": dcmt, "ratemode": ratemode, "envs": envs}
     return case
 
 
@@ -626,6 +685,9 @@ def analyse(model, cid, seed, tag):
         cs = FE.parse_control_stream(code)
         res["advan"], res["trans"] = cs["advan"], cs["trans"]
         case = build_case(cid, cs, model, seed)
+    except UndefinedVariable as e:
+        res["violations"].append(("undefined_variable", f"the generated code reads {e}, which it never assigns and $INPUT does not declare"))
+        return res
     except FE.Unsupported as e:
         res["skip"] = "unsupported: " + str(e)[:80]
         return res
@@ -822,15 +884,22 @@ def run_history(arg):
 
 
 def tlc_graph(v: core.Verdict):
-    res = core.run_tlc(SPEC / "CodeGen.tla", SPEC / "CodeGen.cfg", workers=8, timeout=1800, env=JAVA)
+    # (no -coverage: it triples the cost of this run; the vacuity guard is taken from the emitted transition table -
+    #  every token of the alphabet must label at least one transition)
+    res = core.run_tlc(SPEC / "CodeGen.tla", SPEC / "CodeGen.cfg", workers=8, timeout=1800, env=JAVA, coverage=False)
     core.require_ok(res, "CodeGen.tla")
     if res.violated:
         raise core.MachineryError(f"CodeGen.tla: design-level invariant {res.violated} violated:\n" + "\n".join(res.trace[-2:])[:1500])
-    core.require_actions(res, ["Step"], "CodeGen.tla")
     core.tlc_stats_into(v, res)
     states = [c for t, c in res.prints if t == "STATE"]
     if not states:
         raise core.MachineryError("CodeGen.tla emitted no states")
+    import re as _re
+
+    alphabet = set(_re.findall(r'"([A-Z][A-Z0-9:+-]*)"', (SPEC / "CodeGen.cfg").read_text().split("Acts")[1].split("}")[0]))
+    taken = {mv["tok"] for st in states for mv in st["moves"] if mv["succs"]}
+    if alphabet - taken:
+        raise core.MachineryError(f"CodeGen.tla: tokens never taken (vacuous model): {sorted(alphabet - taken)}")
     v.add_coverage(codegen_states=res.distinct, codegen_transitions=res.generated, codegen_wall_s=round(res.wall, 1),
                    advan_of_states={str(a): sum(1 for s in states if s["state"]["advan"] == a) for a in (1, 2, 3, 4, 5, 11, 12, 13)})
     return states
@@ -840,17 +909,18 @@ def _key(vec):
     return json.dumps(vec, sort_keys=True)
 
 
-def plan_histories(states, rng, n_edges, n_walks, walk_len, row_depth=2):
+def plan_histories(states, rng, n_edges, n_walks, walk_len, row_depth=2, per_start_cap=10**9):
     """histories (token sequences per start model): sampled transitions reached through a breadth-first tree, and random walks"""
     table = {_key(s["state"]["vec"]): s for s in states}
     starts = {}
     # start vectors as CodeGen.StartState defines them
-    base = dict(elim="FO", tr=0, lag=False, bio=False, metab=False, zoin=False, cov=False, iiv=False, fixd=False, rcov=False)
+    base = dict(elim="FO", tr=0, lag=False, bio=False, metab=False, zoin=False, edit=0, iov=0, rcov=False)
     starts["pheno_real"] = dict(base, abs="INST", periph=0, depot=False, trans=2)
     starts["pheno_block"] = dict(base, abs="INST", periph=0, depot=False, trans=2)
     starts["mox2"] = dict(base, abs="FO", periph=0, depot=True, trans=2)
     starts["pheno_advan3"] = dict(base, abs="INST", periph=1, depot=False, trans=3)
     starts["pheno_advan4"] = dict(base, abs="FO", periph=1, depot=True, trans=3)
+    starts["oral2_cmt"] = dict(base, abs="FO", periph=1, depot=True, trans=4)
     hists = []
     per_start = {}
     for name, vec in starts.items():
@@ -879,12 +949,18 @@ def plan_histories(states, rng, n_edges, n_walks, walk_len, row_depth=2):
         chosen, seen_tok, seen_row = [], set(), set()
         deeper = [e for e in edges if len(path[e[0]]) <= row_depth]
         rng.shuffle(deeper)
+        # every token of the alphabet by its shortest history (the scripted edit chains COV-CAT-RCOV, IOV-RIOV included)
+        for e in sorted(edges, key=lambda x: len(path[x[0]])):
+            if e[1] not in seen_tok:
+                seen_tok.add(e[1])
+                chosen.append(e)
         for e in sorted(deeper, key=lambda x: len(path[x[0]])):
             a0, a1 = table[e[0]]["state"], table[e[2]]["state"]
             row = (a0["advan"], a0["vec"]["trans"], a1["advan"])
             if a0["advan"] != a1["advan"] and row not in seen_row:
                 seen_row.add(row)
-                chosen.append(e)
+                if e not in chosen:
+                    chosen.append(e)
         for e in short:
             adv = table[e[2]]["state"]["advan"]
             if (e[1], adv) not in seen_tok:
@@ -892,7 +968,7 @@ def plan_histories(states, rng, n_edges, n_walks, walk_len, row_depth=2):
                 if e not in chosen:
                     chosen.append(e)
         rest = [e for e in short if e not in chosen]
-        chosen = (chosen + rest)[:max(quota, len(chosen))]
+        chosen = (chosen + rest)[:max(quota, min(len(chosen), per_start_cap))]
         for k, tok, k2 in chosen:
             hists.append((name, path[k] + [tok]))
         for _ in range(max(1, n_walks // len(starts))):
@@ -994,6 +1070,9 @@ def compare_case(r, recs):
         adv = exp.get("adv")
         ode = side["ode"]
         if r["case"]["kind"] == "advan" and isinstance(adv, dict):
+            if adv.get("cmtok") is False:
+                out.append(("cmt_out_of_range", f"the CMT data column refers to a compartment number the generated code does not have "
+                                                f"(doses {r['case']['dosecmt']}, observations {r['case']['obscmt']}, {adv['ncomp']} compartments)"))
             if adv.get("missing"):
                 r["missing"] = "+".join(sorted(adv["missing"]))
                 out.append(("undefined_pk_parameter", f"the generated $PK does not define {sorted(adv['missing'])}, which ADVAN{r['case']['advan']} TRANS{r['case']['trans']} requires"))
@@ -1049,6 +1128,7 @@ def compare_case(r, recs):
                 c = ode["comps"].get(str(dz["cmt"]))
                 if c is None or len(c["doses"]) != 1:
                     where = [k for k, x in ode["comps"].items() if x["doses"]]
+                    r["dose_on_central"] = (ode.get("names") or {}).get("CENTRAL") == dz["cmt"]
                     out.append(("dose_compartment", f"code + data dose compartment {dz['cmt']}, the model doses compartment {where}"))
                 else:
                     kind, par = c["doses"][0]
@@ -1067,6 +1147,8 @@ def compare_case(r, recs):
             stats["compared"] += 1
             if not _same(pf, gf):
                 f_bad = True
+                oc = r["case"].get("obscmt") or 0
+                r["obs_cmt_stale"] = bool(oc and ode is not None and (ode.get("names") or {}).get("CENTRAL") not in (None, oc))
                 out.append(("f_value", f"F: the code means {_fr(pf)} (observation compartment {adv['obs'] if isinstance(adv, dict) else '?'}), the model {_fr(gf)}"))
         for name, p in sorted(final.items()):
             if "(" in name or p[1] == 0 or name == "F":
@@ -1161,7 +1243,7 @@ def _record(r, outcome, detail, table_states=None):
             "advan": r.get("advan"), "trans": r.get("trans"), "from_advan": r.get("from_advan"), "detail": detail,
             "vec": r.get("vec"), "missing": r.get("missing"), "model_f_scale": r.get("model_f_scale"),
             "scale_consistent": r.get("scale_consistent"), "stale_output_rate_name": r.get("stale_output_rate_name"), "bio_class": r.get("bio_class"), "lag_class": r.get("lag_class"),
-            "dose_code": r.get("dose_code"), "dose_model": r.get("dose_model"),
+            "dose_code": r.get("dose_code"), "dose_model": r.get("dose_model"), "dose_on_central": r.get("dose_on_central"), "obs_cmt_stale": r.get("obs_cmt_stale"),
             "code_scales": "+".join(r.get("code_scales") or []), "code": r.get("code")}
 
 
@@ -1179,7 +1261,7 @@ def main(tier: str, seed: int) -> int:
     t0 = time.time()
     frontend_roundtrip(cfg["roundtrip"], seed, v)
     states = tlc_graph(v)
-    hists, table, starts = plan_histories(states, rng, cfg["edges"], cfg["walks"], cfg["walk_len"], cfg.get("row_depth", 2))
+    hists, table, starts = plan_histories(states, rng, cfg["edges"], cfg["walks"], cfg["walk_len"], cfg.get("row_depth", 2), cfg.get("cap", 10**9))
     _load()
     work = []
     for i, (name, h) in enumerate(hists, start=1):
